@@ -77,6 +77,11 @@ pub fn parse_ignore(source: &Path, config: &Config) -> Result<Option<Gitignore>>
 /// Filter to return whether a given file should be ignored by a
 /// filter file.
 pub fn ignore_filter(entry: &DirEntry, ignore: &Option<Gitignore>) -> bool {
+    // The rules apply to what is in the source directory, never to
+    // the directory itself (its name could match one of them).
+    if entry.depth() == 0 {
+        return true;
+    }
     match ignore {
         None => true,
         Some(gi) => {
